@@ -359,6 +359,27 @@ def extract():
     body = function_body(plugin, r"MemoryLeakWarningPlugin::MemoryLeakWarningPlugin\s*\([^)]*\)\s*:[^{]*\{")
     if "memLeakDetector_->enable();" not in norm(body):
         raise TranslateError("plugin constructor no longer enables the detector")
+    # firstPlugin_: set by the constructor (only while it is still NULL?), never by anything else
+    mc = re.match(r"^(?P<first>if\(firstPlugin_==NULLPTR\)firstPlugin_=this;|firstPlugin_=this;)"
+                  r"if\(localDetector\)memLeakDetector_=localDetector;elsememLeakDetector_=getGlobalDetector\(\);"
+                  r"memLeakDetector_->enable\(\);$", norm(body))
+    if not mc:
+        raise TranslateError("plugin constructor changed shape: " + norm(body)[:300])
+    first_only_if_null = "true" if mc.group("first").startswith("if(") else "false"
+    expect_shape(plugin, r"MemoryLeakWarningPlugin::~MemoryLeakWarningPlugin\s*\(\s*\)\s*\{",
+                 "if(destroyGlobalDetectorAndTurnOfMemoryLeakDetectionInDestructor_){MemoryLeakWarningPlugin::turnOffNewDeleteOverloads();"
+                 "MemoryLeakWarningPlugin::destroyGlobalDetector();}", "plugin destructor")
+    expect_shape(plugin, r"MemoryLeakWarningPlugin::getFirstPlugin\s*\(\s*\)\s*\{", "returnfirstPlugin_;", "getFirstPlugin")
+    if len(re.findall(r"firstPlugin_\s*=[^=]", plugin)) != 2:       # the static's initialiser and the constructor
+        raise TranslateError("firstPlugin_ is assigned somewhere else than in its definition and the constructor")
+    if not re.search(r"MemoryLeakWarningPlugin\s*\*\s*MemoryLeakWarningPlugin::firstPlugin_\s*=\s*NULLPTR\s*;", plugin):
+        raise TranslateError("firstPlugin_ is no longer initialised with NULLPTR")
+    hdr = strip_comments(read("include/CppUTest/MemoryLeakWarningPlugin.h"))
+    nh = norm(hdr)
+    for macro, call in (("IGNORE_ALL_LEAKS_IN_TEST()", "ignoreAllLeaksInTest()"), ("EXPECT_N_LEAKS(n)", "expectLeaksInTest(n)")):
+        want = ("#define%sif(MemoryLeakWarningPlugin::getFirstPlugin())MemoryLeakWarningPlugin::getFirstPlugin()->%s" % (macro, call))
+        if want not in nh:
+            raise TranslateError("macro %s no longer routes through getFirstPlugin()" % macro)
 
     expect_shape(plugin, r"MemoryLeakWarningPlugin::expectLeaksInTest\s*\([^)]*\)\s*\{", "expectedLeaks_=n;", "expectLeaksInTest")
     body = norm(function_body(plugin, r"MemoryLeakWarningPlugin::ignoreAllLeaksInTest\s*\(\s*\)\s*\{"))
@@ -529,6 +550,8 @@ def extract():
     text += "/-- plugin constructor initialisers, `ignoreAllLeaksInTest` -/\n"
     text += "def ctorIgnore : Bool := %s\ndef ctorExpected : Nat := %s\ndef ignoreAllLeaksValue : Bool := %s\n" % (
         mi.group(1), me.group(1), ignore_value)
+    text += "/-- the constructor sets `firstPlugin_` only while it is still NULL (`true`) or always (`false`) -/\n"
+    text += "def firstPluginSetOnlyIfNull : Bool := %s\n" % first_only_if_null
     text += "/-- `FinalReport`: period counted, period reported -/\n"
     text += "def finalCountPeriod : Period := %s\ndef finalReportPeriod : Period := %s\n\n" % (final_count, final_report)
     text += "/-- what `areNewDeleteOverloaded()` answers after `turnOffNewDeleteOverloads()` / after\n"
